@@ -53,6 +53,7 @@ class Verdict:
     nontrivial: bool = False
     labels: list = field(default_factory=list)
     info: Any = None  # free-form, shown in samples
+    key: Any = None  # distinctness key for the non-trivial count (default: the case)
 
     def fail(self, bucket: str, detail: str = "") -> None:
         self.failures.append((bucket, detail))
@@ -98,7 +99,7 @@ class Ctx:
         for lab in v.labels:
             self.classes[lab] += 1
         if v.nontrivial:
-            h = case_hash(case)
+            h = case_hash(case if v.key is None else v.key)
             if h not in self.nontrivial:
                 self.nontrivial.add(h)
                 new_label = [lab for lab in v.labels if lab not in self.sample_labels]
